@@ -1,19 +1,19 @@
 // roothttp: the HTTP driver of harness/httpdrv compiled against the bindings of the ROOT-module generator
 // (github.com/PapaCharlie/go-restli, /repo/restli + /repo/codegen/resources).  checks/roothttp.py copies env.go dyn.go gen.go
-// schema.go val.go c02.go c02coq.go c08.go c04http.go c06http.go of harness/httpdrv with checked source rewrites (import
+// schema.go val.go c02.go c02coq.go c08.go c04http.go c06http.go c07http.go of harness/httpdrv with checked source rewrites (import
 // paths; the envelope package common -> restlidata; failure sites), cuts fieldsOf / buildErr out of c08.go (root_err.go) and adds
 // this main and a registry generated from checks/family.py.
 //
 // What differs between the generations, as far as this driver is concerned:
-//   * the generated API is the same: <pkg>.NewClient, <pkg>.Client, <pkg>.Resource, <pkg>.RegisterResource(restli.Server, Resource),
+//   - the generated API is the same: <pkg>.NewClient, <pkg>.Client, <pkg>.Resource, <pkg>.RegisterResource(restli.Server, Resource),
 //     <pkg>_test.MockResource with one Mock<Method> func field per method, <Method>Params structs embedding restlidata.PagingContext,
 //     X_PartialUpdate with Set_Fields / Delete_Fields; restli.NewServer / NewPrefixedServer / AddToMux / Filter / Client are the
 //     same declarations (Gen/TablesRootHttp.v compares them on every run);
-//   * envelope types (ErrorResponse, Elements, CreatedEntity, CreatedAndReturnedEntity, BatchResponse, BatchEntityUpdateResponse,
+//   - envelope types (ErrorResponse, Elements, CreatedEntity, CreatedAndReturnedEntity, BatchResponse, BatchEntityUpdateResponse,
 //     EmptyRecord, PagingContext) live in the hand-maintained package restlidata (v2: generated package common);
-//   * ErrorResponse has four fields (root_err.go);
-//   * no partial_update with return entity (checks/roothttp.py probes it and drops the flag from the root spec);
-//   * records with includes are flattened in the root bindings; the resource family uses none as entity, key or parameter, so
+//   - ErrorResponse has four fields (root_err.go);
+//   - no partial_update with return entity (checks/roothttp.py probes it and drops the flag from the root spec);
+//   - records with includes are flattened in the root bindings; the resource family uses none as entity, key or parameter, so
 //     val.go's toGo / fromGo are used unchanged (they would panic on a missing field otherwise).
 package main
 
@@ -44,6 +44,8 @@ func main() {
 		runC04HTTP(cfg)
 	case "c06http":
 		runC06HTTP(cfg)
+	case "c07http":
+		runC07HTTP(cfg)
 	default:
 		fmt.Fprintln(os.Stderr, "unknown VERIF_MODE (root http driver)", mode)
 		os.Exit(2)
